@@ -125,9 +125,9 @@ func checkRules(c *Ctx, roundTrip bool) error {
 	c.Cov["cli_executions"] = cli
 	c.Cov["exhaustive"] = keepMod == 1
 	if roundTrip {
-		c.Cov["rule"] = fmt.Sprintf("rules files of <= %d items over the 11-item vocabulary of MC_Rules x targets (5 ids x chain 0..3) x one regex of the hazard pool per target; history compare / update / compare / update / generate / edit one operand byte / compare (text and github mode) on the real binary, each step compared with the spec; non-trivial = update succeeds and the regex contains a quote, $, blank or backslash", items)
+		c.Cov["rule"] = fmt.Sprintf("rules files of <= %d items over the 12-item vocabulary of MC_Rules x targets (6 ids x chain 0..3) x one regex of the hazard pool per target; history compare / update / compare / update / generate / edit one operand byte / compare (text and github mode) on the real binary, each step compared with the spec; non-trivial = update succeeds and the regex contains a quote, $, blank or backslash", items)
 	} else {
-		c.Cov["rule"] = fmt.Sprintf("rules files of <= %d items over the 11-item vocabulary of MC_Rules x targets (5 ids x chain 0..3) x one regex of the hazard pool per target; after `regex update` the whole tree is compared with the spec: rules file bytes = Bytes(Update(..)), nothing else changed, failures leave everything untouched; non-trivial = file has >= 2 rules or the target is a chained link", items)
+		c.Cov["rule"] = fmt.Sprintf("rules files of <= %d items over the 12-item vocabulary of MC_Rules x targets (6 ids x chain 0..3) x one regex of the hazard pool per target; after `regex update` the whole tree is compared with the spec: rules file bytes = Bytes(Update(..)), nothing else changed, failures leave everything untouched; non-trivial = file has >= 2 rules or the target is a chained link", items)
 	}
 	c.Summary = fmt.Sprintf("theorem_states=%d cases=%d cli=%d", th.Distinct, len(cases), cli)
 	return nil
@@ -149,7 +149,10 @@ func rulesReplay(c *Ctx, name string, rc *RulesCase, roundTrip bool, cli *int64)
 		rulesFileName:                              rc.File,
 		"rules/REQUEST-933-APPLICATION-OTHER.conf": "SecRule ARGS \"@rx keep\" \\\n    \"id:933100,\\\n    block\"\n",
 		"rules/notes.txt":                          "id:" + rc.Rule + " \"@rx decoy\" \\\n",
-		"tests/regression/tests/x/932100.yaml":     "tests:\n  - test_id: 7\n",
+		// a second, up-to-date rule that `--all` visits after the target
+		"regex-assembly/942100.ra":                "keep\n",
+		"rules/REQUEST-942-APPLICATION-SQLI.conf": "SecRule ARGS \"@rx keep\" \\\n    \"id:942100,\\\n    block\"\n",
+		"tests/regression/tests/x/932100.yaml":    "tests:\n  - test_id: 7\n",
 	}
 	if err := writeTree(root, t); err != nil {
 		return
